@@ -414,9 +414,102 @@ def make_status_quick(shape):
     return q
 
 
+# ---------------------------------------------------------------- large bodies: the length is the solver variable
+class SizedBytes(bytes):
+    """a body whose content is never looked at, only its length (a solver integer)"""
+    def __new__(cls, n):
+        o = super().__new__(cls)
+        o.n = n
+        return o
+
+    def __len__(self):
+        return self.n
+
+    def __bool__(self):
+        return True
+
+
+class SizedText(str):
+    """ASCII text of n characters: its encoding has n bytes"""
+    def __new__(cls, n):
+        o = super().__new__(cls)
+        o.n = n
+        return o
+
+    def __len__(self):
+        return self.n
+
+    def __bool__(self):
+        return True
+
+    def encode(self, *a, **kw):
+        return SizedBytes(self.n)
+
+
+SIZE_KINDS = ["bytes", "str", "response", "raise_response", "custom_error"]
+SIZE_CLASSES = [(1, 10), (10, 100), (100, 1000), (1000, 10 ** 4), (10 ** 4, 10 ** 5), (10 ** 5, 10 ** 6), (10 ** 6, 10 ** 7),
+                (10 ** 7, 10 ** 9), (10 ** 9, 2 ** 31), (2 ** 31, 2 ** 32), (2 ** 32, 2 ** 53), (2 ** 53, 2 ** 63 - 1)]
+
+
+def make_size(kind, lo, hi):
+    """the framework's Content-Length for a body of n bytes, lo <= n < hi, is the decimal numeral of n"""
+    def q(n: int, mi: int):
+        assume(lo <= n < hi)
+        assume(0 <= mi < len(METHODS))
+        method = METHODS[mi]
+        app = ombott.Ombott()
+
+        def h():
+            if kind == "bytes":
+                return SizedBytes(n)
+            if kind == "str":
+                return SizedText(n)
+            if kind == "response":
+                return ombott.HTTPResponse(SizedBytes(n), 201)
+            if kind == "raise_response":
+                raise ombott.HTTPResponse(SizedText(n), 202)
+            return ombott.HTTPError(418, "x")
+        app.route("/p", method=METHODS, callback=h)
+        app.error_handlers[418] = lambda e: SizedBytes(n)
+        env = {"REQUEST_METHOD": method, "PATH_INFO": "/p", "wsgi.errors": None, "SERVER_NAME": "h", "SERVER_PORT": "80",
+               "wsgi.url_scheme": "http", "QUERY_STRING": "", "SERVER_PROTOCOL": "HTTP/1.1"}
+        calls = []
+        result = app(env, lambda st, hd, ei=None: calls.append((st, hd)))
+        total = 0
+        for c in result:
+            if not isinstance(c, bytes):
+                return "body item %r is not bytes" % (c,)
+            total += len(c)
+        if len(calls) != 1:
+            return "start_response called %d times" % len(calls)
+        cl = [v for k, v in calls[0][1] if k.lower() == "content-length"]
+        if len(cl) != 1 or type(cl[0]) is not str:
+            return "Content-Length headers of a %d byte body: %r" % (n, cl)
+        if method == "HEAD":
+            if total:
+                return "HEAD response carries %d bytes" % total
+            if cl[0] != str(n):
+                return "Content-Length %r for HEAD, the GET response has %d bytes" % (cl[0], n)
+            cover("head")
+            return None
+        if total != n:
+            return "%d bytes returned for a body of %d bytes" % (total, n)
+        if cl[0] != str(n):
+            return "Content-Length %r but %d bytes returned" % (cl[0], total)
+        cover("content-length-checked")
+        return None
+    return q
+
+
 def queries(tier):
     T = tier == "thorough"
     out = []
+    for kind in (SIZE_KINDS if T else ["bytes", "raise_response"]):
+        for lo, hi in SIZE_CLASSES:
+            out.append(Q("size/%s/%d-%d" % (kind, lo, hi), make_size(kind, lo, hi),
+                         "handler result kind %r with a body of n bytes, every n with %d <= n < %d (content opaque: only the "
+                         "length is used), method in %r" % (kind, lo, hi, METHODS), timeout=100, family="size",
+                         expect_cover=["content-length-checked", "head"], config={"kind": kind}))
     for shape in SHAPES:
         if shape in USES_STATUS and shape not in ERROR_PAGE and not T:
             fn = make_status_quick(shape)
